@@ -115,8 +115,8 @@ def rule_load_dispatch(ctx):
 
 
 def run(ctx):
-    from ..rules import generic as _G11
-    _G11.rule_F11(ctx, ['partitura.io.importmei', 'partitura.io.importkern'], 'C19')
+    from ..rules import extra as _X3
+    _X3.rule_shared_divisions_lcm(ctx)
     rule_tables(ctx)
     rule_load_dispatch(ctx)
     X.rule_truncated_quotient(ctx, ("partitura.io.importmei", "partitura.io.importkern"))
